@@ -224,7 +224,7 @@ func (e *env) runAccount(a attempt) (ob observed) {
 	root := e.sectorRoot(a.Root)
 	fail := func(err error) observed {
 		if err != nil {
-			ob.clientErr = err.Error()
+			ob.clientErr = errText(err)
 		}
 		return ob
 	}
@@ -328,7 +328,7 @@ func (e *env) runContract(a attempt, before snap) (ob observed) {
 	}
 	fail := func(err error) observed {
 		if err != nil {
-			ob.clientErr = err.Error()
+			ob.clientErr = errText(err)
 		}
 		return ob
 	}
@@ -393,7 +393,7 @@ func (e *env) runContract(a attempt, before snap) (ob observed) {
 			return true
 		}
 		if err := proto4.WriteRequest(s, id, req); err != nil {
-			ob.clientErr = err.Error()
+			ob.clientErr = errText(err)
 			return true
 		}
 		if a.Script == scriptCloseAfterReq {
@@ -422,7 +422,7 @@ func (e *env) runContract(a attempt, before snap) (ob observed) {
 			if err2 := proto4.ReadResponse(s, third); err2 != nil {
 				err = err2
 			}
-			ob.clientErr = err.Error()
+			ob.clientErr = errText(err)
 			return
 		}
 		sigHash := e.cs.ContractSigHash(revision)
@@ -438,7 +438,7 @@ func (e *env) runContract(a attempt, before snap) (ob observed) {
 			return
 		}
 		if err := proto4.WriteResponse(s, second(sig)); err != nil {
-			ob.clientErr = err.Error()
+			ob.clientErr = errText(err)
 			return
 		}
 		if a.Script == scriptCloseAfterSig {
@@ -446,7 +446,7 @@ func (e *env) runContract(a attempt, before snap) (ob observed) {
 			return
 		}
 		if err := proto4.ReadResponse(s, third); err != nil {
-			ob.clientErr = err.Error()
+			ob.clientErr = errText(err)
 			return
 		}
 		revision.RenterSignature, revision.HostSignature = sig, hostSig()
@@ -607,4 +607,13 @@ func randomIndices(r *rng.R, size int, maxLen int) []uint64 {
 		idx[i] = uint64(r.Intn(max(size, 1)))
 	}
 	return idx
+}
+
+// errText: the text is only ever quoted in reports; verdicts test for the presence of an
+// error, so an error must never render as the empty string.
+func errText(err error) string {
+	if s := err.Error(); s != "" {
+		return s
+	}
+	return "(error with empty text)"
 }
